@@ -196,8 +196,8 @@ fn h_engine(ctx: &Ctx) {
         v.extend([Op::EscapeNoSurr, Op::EscapeSurr, Op::Anchors, Op::MinRep(1), Op::MinRep(2), Op::MinLen(1), Op::MinLen(2), Op::Build, Op::CloneOp]);
         v
     } else {
-        let mut v: Vec<Op> = [R, I, D, W, X, NA, NE].iter().map(|b| Op::Flag(*b)).collect();
-        v.extend([Op::EscapeNoSurr, Op::MinRep(2), Op::Build, Op::CloneOp]);
+        let mut v: Vec<Op> = [R, I, D, W, X, G, NA, NE].iter().map(|b| Op::Flag(*b)).collect();
+        v.extend([Op::EscapeSurr, Op::Anchors, Op::MinRep(2), Op::Build, Op::CloneOp]);
         v
     };
     // initial states: every permutation of the seed, and the seed with one element duplicated at every position
@@ -218,7 +218,7 @@ fn h_engine(ctx: &Ctx) {
         }
     }
     let tot = Mutex::new((0u64, 0u64, 0usize));
-    let cap = if thorough { 400_000 } else { 20_000 };
+    let cap = if thorough { 1_500_000 } else { 150_000 };
     par_for(initials.len(), |i| {
         let mut st = HStats { states: 0, transitions: 0, outcomes: HashSet::new() };
         bfs(ctx, &initials[i], &ops, &mut st, cap);
